@@ -136,6 +136,10 @@ def find(
         limit = None
     after = datetime(1980, 1, 1, tzinfo=UTC) if after is None else after
     before = datetime.now(UTC) if before is None else before
+    # the journals are filed by the UTC date of completion: walk them in UTC
+    # whatever offset the bounds were written with
+    after = after.astimezone(UTC)
+    before = before.astimezone(UTC)
     entries = []
     oldest = after > datetime(1980, 1, 1, tzinfo=UTC) and limit is not None
     one = timedelta(seconds=1)
